@@ -65,6 +65,15 @@ def run(ctx):
                 # reached through the `true` outcome (closing brace seen)
                 if any(f[0] == "true" and contains_value(f[1], lambda x: x == info["value"]) for f in ctx.E.facts(fn, n_)):
                     good = True
-    s.add("S-MUSTPASS", fn, "consumed-is-cursor-after-brace", "Ok((inpos, ..))", fn.sp, PROVED if good else VIOLATION,
+    # recognisably wrong: the consumed length is a constant or the input length; anything else that is not the recognised
+    # shape (e.g. the cursor carried out of a flag-controlled loop) is not decided
+    wrong = False
+    for n_, v in oks:
+        payload = v[2][0]
+        first = payload[2][0] if payload[0] == "agg" else None
+        if first is not None and (first[0] == "const" or first[0] == "len"):
+            wrong = True
+    s.add("S-MUSTPASS", fn, "consumed-is-cursor-after-brace", "Ok((inpos, ..))", fn.sp,
+          PROVED if good else (VIOLATION if wrong else UNDECIDED),
           "the consumed length is the cursor left by next_object_field when it saw the closing brace" if good else
           "the consumed length is not the cursor position just past the closing brace")
